@@ -27,6 +27,9 @@ pub struct CbState {
     pub flag_at: Option<(usize, Arc<Context>)>,
     /// callbacks are neither logged nor acted on (fault-free preparation / follow-up parts)
     pub muted: bool,
+    /// run this at the given invocation, after any flag_at cancel, with callbacks muted: a second
+    /// operation interleaved with the one that is paused in its progress callback
+    pub nested_at: Option<(usize, Arc<dyn Fn() + Send + Sync>)>,
 }
 
 thread_local! {
@@ -42,6 +45,7 @@ pub fn cb_reset(world: Option<WorldRef>, cancel_at: Option<usize>) {
         c.log.clear();
         c.cancel_at = cancel_at;
         c.flag_at = None;
+        c.nested_at = None;
         c.muted = false;
     });
     CB_SEQS.with(|s| s.borrow_mut().clear());
@@ -64,7 +68,7 @@ pub fn progress_cb(phase: ProgressPhase, step: u32, total: u32) -> bool {
             s.push(seq)
         }
     });
-    let (cont, flag) = CB.with(|c| {
+    let (cont, flag, nested) = CB.with(|c| {
         let mut c = c.borrow_mut();
         if let Some(w) = &c.world {
             set_phase(w, &name);
@@ -75,10 +79,19 @@ pub fn progress_cb(phase: ProgressPhase, step: u32, total: u32) -> bool {
             Some((at, ctx)) if *at == n => Some(ctx.clone()),
             _ => None,
         };
-        (c.cancel_at != Some(n), flag)
+        let nested = match &c.nested_at {
+            Some((at, f)) if *at == n => Some(f.clone()),
+            _ => None,
+        };
+        (c.cancel_at != Some(n), flag, nested)
     });
     if let Some(ctx) = flag {
         ctx.cancel();
+    }
+    if let Some(f) = nested {
+        mute(true);
+        f();
+        mute(false);
     }
     cont
 }
